@@ -143,10 +143,16 @@ def anchors():
             out.append(("ws", 1, "construct:dQ", corr, kid))
     for corr in (["x+p"], ["y+p"]):
         out.append(("ws", 1, "import:spki", corr, "P-521/short/%d"))
+    # the point with the smallest abscissa: x + p (and y + p where y is small) still fit the coordinate width of every curve
+    for name in NIST:
+        out.append(("ws", 1, "construct:pub", ["x+p"], name + "/tiny/%d"))
+        out.append(("ws", 1, "construct:pub", [], name + "/tiny/%d"))
+    out.append(("ws", 1, "import:spki", ["x+p"], "P-256/tiny/%d"))
+    out.append(("ws", 1, "import:spki", ["x+p"], "P-384/tiny/%d"))
     for form, corr in (("construct:d", []), ("construct:dQ", []), ("import:spki", ["y+1"]), ("import:pkcs8Q", [])):
         out.append(("ws", 2, form, corr, "P-256/short/%d"))
     for name in ("Ed25519", "Ed448"):
-        for corr in (["x+p"], ["y+p"], ["(0,p+1)"]):
+        for corr in (["x+p"], ["y+p"], ["(0,p+1)"], ["neutral", "x+p"], ["order 2", "x+p"]):         # the last two: (p, 1) and (p, p-1)
             out.append(("ed", 1, "construct:pub", corr, name + "/seed/%d"))
         out.append(("ed", 1, "import:spki", ["(0,p+1)"], name + "/seed/%d"))
         out.append(("ed", 1, "import:spki", [], name + "/seed/%d"))
